@@ -21,7 +21,8 @@ LEVEL_TEXT = ('Every triple of emission sizes around the 512-byte buffer limit w
               'full alphabet are assembled on byte-, word- and 4-byte-granular targets (and on the default CPU without a CPU statement); the '
               'independent reader must accept the file and its records must equal the model\'s per-segment byte map and CPU/segment/granularity tags.'
               ' Two further targets: the AVR re-selected with another code-segment-size CPU argument (header id and granularity change without a CPU change), and the 68000 under PADDING ON with word data and word reservations at odd addresses (the pad byte is part of the program).'
-              ' PADDING state is followed across CPU switches to 6809/6805 (targets that know PADDING but default to off).')
+              ' PADDING state is followed across CPU switches to 6809/6805 (targets that know PADDING but default to off).'
+              " Added in the last round: reservation with a multi-element DUP body; a byte laid down in the data segment (its record's granularity).")
 LEVEL_NOTE = ('Trusted: pfile reader written from doc/file-formats.md; model of what a data statement emits (unit values < 251, little-endian '
               'units on word-granular targets); CPU switch continues the code counter. Output sizes up to ~200 KiB.')
 RULE = ('(a) EMIT triples x separator pairs x style x target; (b) prefix lengths around record limits x tail emissions; (c) all op sequences '
